@@ -230,6 +230,10 @@ func genFeats(t *rapid.T, c locCfg, n int, prefix string, allowSource bool) []Fe
 		if rapid.Bool().Draw(t, "hasq") {
 			f.Quals = append(f.Quals, []string{"note", rapid.SampledFrom([]string{"x", "y z", ""}).Draw(t, "note")})
 		}
+		if key == "source" && rapid.Bool().Draw(t, "moltype") {
+			// what a source feature says about the molecule must not change what an operation does to residues or locations
+			f.Quals = append(f.Quals, []string{"mol_type", rapid.SampledFrom([]string{"genomic DNA", "mRNA", "genomic RNA", "other RNA", "unassigned DNA"}).Draw(t, "mt")})
+		}
 		out[i] = f
 	}
 	return out
